@@ -755,6 +755,10 @@ class G:
             names = [self.ch(fam) for _ in range(r.randrange(2, 4))]
             if self.pr("fallible", 0.3):
                 names = [try_name(n) for n in names]
+        if self.pr("twin_names", 0.0):
+            # an instruction name next to its fallible twin (from_owned / try_from_owned): their templates are separate
+            base = self.ch([n for n in names if n in MAP12] or ["from_owned"])
+            names = [base, try_name(base)] + ([self.ch(names)] if self.pr("x", 0.3) else [])
         if is_enum:
             names = [n for n in names if "existing" not in n] or ["map"]
         cps = ["A", "B", "C", "m::D", "E5", "F6", "G<i32>"]
@@ -865,8 +869,8 @@ PROFILES = {
              "variant_map": 0.5, "max_fields": 3},
     "parents": {"lit_args": 0.05, "parent_heavy": 0.8, "parent_depth": 3, "nested_parent": 0.45, "nested_instr": 0.5, "max_fields": 4, "fallible": 0.3, "multi_cpart": 0.5, "hints": 0.3,
                 "dedicated": 0.45, "member_instr": 0.3, "update": 0.1, "vars": 0.1, "generic_cpart": 0.25, "second_parent": 0.5, "attr_params": 0.25, "child_pair": 0.2},
-    "trait-repeat": {"vars": 0.4, "fallible": 0.3, "attr_params": 0.1, "enum_item": 0.3, "lit": 0.3, "multi_open": 0.12},
-    "shape-change": {"shape_change": 0.8, "shape_multi": 0.4, "shape_mixed": 0.4, "multi_cpart": 0.4, "shape_ghost": 0.3, "fallible": 0.3, "max_variants": 3, "variant_map": 0.1, "member_try": 0.1, "multi_instr": 0.5},
+    "trait-repeat": {"vars": 0.4, "fallible": 0.3, "attr_params": 0.1, "enum_item": 0.3, "lit": 0.3, "multi_open": 0.12, "twin_names": 0.2},
+    "shape-change": {"shape_change": 0.8, "shape_multi": 0.5, "shape_mixed": 0.5, "shape_forget": 0.3, "multi_cpart": 0.4, "shape_ghost": 0.3, "fallible": 0.3, "max_variants": 3, "variant_map": 0.1, "member_try": 0.1, "multi_instr": 0.5},
     "unknowns": {"unknowns": 1.0, "max_fields": 3, "member_instr": 0.3, "multi_instr": 0.5, "max_variants": 3, "variant_map": 0.2},
     "faults": {"max_fields": 3, "member_instr": 0.4, "multi_cpart": 0.3, "fallible": 0.4, "drop_err": 0.15, "extra_err": 0.1, "ghost_field": 0.2, "ghost_default": 0.5,
                "dedicated": 0.4, "ghosts": 0.2, "where_clause": 0.2, "hints": 0.4, "drop_child_parents": 0.3, "drop_cp_entry": 0.2, "type_hint": 0.3,
